@@ -435,6 +435,7 @@ func genItems(rnd interface{ IntN(int) int }, n, budget int, pattern int) []Item
 		it[j].FBE = rnd.IntN(2) == 0
 		it[j].Nil = rnd.IntN(5) == 0
 		it[j].EVal = !it[j].Nil && rnd.IntN(6) == 0
+		it[j].FBRes = !it[j].FBE && rnd.IntN(3) == 0
 	}
 	return it
 }
